@@ -17,3 +17,28 @@ CHECKS['C20'] = dict(
     technique='exhaustive bounded input enumeration on the real code (guard-page buffers) vs reference model',
     assumptions=['guard pages make any access beyond the documented buffer a deterministic fault', 'ASan/UBSan instrumented build of the real library'],
 )
+
+CHECKS['C11'] = dict(
+    level='model_checking',
+    steps=[dict(mode='asan', bin='c11_utf')],
+    rule='exhaustive enumeration of code-unit strings: ALL UTF-8 byte strings of length 0..3 (16 843 009), all strings of length 4..5 (quick) / 4..6 (thorough) over 16 boundary bytes and 7..8 over 6 bytes; '
+         'UTF-16 strings <=4 over 14 boundary units and every first unit x (boundary + D7F0..E00F) second units (quick) / all 2^32 pairs (thorough); UTF-32 single units k<<16|{0,FFFF} plus boundary set, strings <=3 over 8 values; '
+         'each in an exact-size guard-page buffer, with pError NULL / non-NULL and buffer_end NULL for NUL-terminated text, compared with a Unicode Table 3-7 reference decoder. '
+         'Shaping clause: all scalar sequences <=3 over 7 scalars x 3 encodings x optional single-unit ill-formed insertion at every position x dir 0/1 x fonts. distinct = (ill-formed, truncated, surrogate, NUL, error, count) classes and distinct segment dumps',
+    state_meaning='one code-unit string (or scalar sequence); transitions = gr_count_unicode_characters / gr_make_seg calls compared with the reference decoder',
+    level_text='Exhaustive over every UTF-8 string up to 3 bytes and boundary-structured longer strings, all UTF-16 unit pairs (thorough), boundary UTF-32 values, each evaluated on the real decoder inside guard pages and compared with an independent reference decoder; encoding-equivalence of segments on real fonts.',
+    level_note='Trusted: reference decoder (Unicode ch.3 Table 3-7), guard pages, ASan/UBSan. Encoded surrogates are treated as unspecified (DESIGN 5.1). Strings longer than 3 bytes use boundary alphabets.',
+    technique='exhaustive bounded input enumeration on the real code (guard-page buffers) vs reference decoder',
+    assumptions=['encoded surrogates (ED A0..BF xx, UTF-32 D800..DFFF) neither required nor forbidden to be errors'],
+)
+
+CHECKS['C12'] = dict(
+    level='exploration',
+    steps=[dict(mode='asan', bin='c12_nchars')],
+    rule='all NUL-terminated strings of true length 0..3 over a 7-item alphabet (1-,2-,3-,4-byte characters, two kinds of lone lead unit, space) in UTF-8/16/32, terminator = last readable unit before a guard page, '
+         'x nChars in {len+1, len+2, 2len+1, 64} x dir {0,1} x fonts; oracle: no fault, n_cinfo == len, dump identical to the call with the exact count. distinct = distinct reference segment dumps',
+    level_text='Bounded exhaustive enumeration of short NUL-terminated texts with over-estimated nChars against the real library under guard pages; differential oracle (exact-count call).',
+    level_note='Trusted: guard pages, ASan. Only over-estimates from a fixed set of five formulas are explored.',
+    technique='exhaustive bounded input enumeration on the real code (guard-page buffers), differential oracle',
+    assumptions=[],
+)
